@@ -148,6 +148,12 @@ def _replay_chunk(chunk):
 
 DOC = ('<html lang="en"><head><meta http-equiv="content-language" content="de"></head><body><div><p class="a">x</p><p>y</p>'
        '<form><input type="radio" name="g"><input type="submit"></form><span lang="fr">z</span></div></body></html>')
+# two documents whose range inputs need DIFFERENT calendar facts (leap year / common year, 53-week / 52-week year): whatever table the
+# validation fills for one must not be read by the other
+DOC_LEAP = ('<form><input type="date" id="l1" min="2024-03-01" value="2024-02-29"><input type="week" id="l2" max="2020-W52" value="2020-W53">'
+            '<input type="date" id="l3" value="2024-02-30" min="2025-01-01"><input type="datetime-local" id="l4" min="2024-03-01T00:00" value="2024-02-29T12:00"></form>')
+DOC_COMMON = ('<form><input type="date" id="c1" min="2023-03-01" value="2023-02-28"><input type="week" id="c2" max="2021-W51" value="2021-W52">'
+              '<input type="date" id="c3" value="2023-02-29" min="2024-01-01"><input type="datetime-local" id="c4" min="2023-03-01T00:00" value="2023-02-28T12:00"></form>')
 SELS = ['p:nth-child(2n+1)', ':lang(en)', ':default', 'div :-soup-contains("x")', ':indeterminate', 'p + p', ':is(p, span):not(.a)']
 
 
@@ -169,6 +175,12 @@ def _do(op, salt=0):
         import bs4
         _W['soup'] = bs4.BeautifulSoup(DOC, 'html.parser')
         _W['pos'] = {id(t): i for i, t in enumerate(_W['soup'].descendants)}
+    if kind == 'rangedoc':
+        import bs4
+        if 'rangedocs' not in _W:
+            _W['rangedocs'] = {'leap': bs4.BeautifulSoup(DOC_LEAP, 'html.parser'), 'common': bs4.BeautifulSoup(DOC_COMMON, 'html.parser')}
+        css, which = p
+        return [t.get('id') for t in sv.select(css, _W['rangedocs'][which])]
     if kind == 'select':
         return [_W['pos'][id(t)] for t in sv.select(p, _W['soup'])]
     if kind == 'match':
@@ -462,6 +474,12 @@ def main(tier):
             allk = list(range(60, 9000, 83 if tier == 'quick' else 17))
             for i in range(0, len(allk), 12):
                 jobs.append((x, y, allk[i:i + 12]))
+        for (x, y) in ((('rangedoc', ('input:out-of-range', 'leap')), ('rangedoc', ('input:out-of-range', 'common'))),
+                       (('rangedoc', ('input:in-range', 'common')), ('rangedoc', ('input:out-of-range', 'leap'))),
+                       (('rangedoc', ('input:out-of-range', 'common')), ('rangedoc', ('input:in-range', 'leap')))):
+            allk = list(range(1, 2600, 2 if tier == 'quick' else 1))
+            for i in range(0, len(allk), 60):
+                jobs.append((x, y, allk[i:i + 60]))
         npre = 0
         for out in pool.imap_unordered(_line_preempt, jobs, chunksize=2):
             for (opa, opb, k, total), bad in out:
